@@ -908,11 +908,9 @@ func pathString(p []Op) string {
 	return strings.Join(s, " ")
 }
 
-func searchHistories(cfg *vlib.Config, r *vlib.Report, name string, cluster bool, depth int, deadline time.Time) {
-	maxFailedInval := 1
-	if cfg.Thorough() {
-		maxFailedInval = 2
-	}
+// maxFailedInval: invalidations that may fail per history; plain: also offer Exec with a background
+// context during outages (besides the request-context variant).
+func searchHistories(cfg *vlib.Config, r *vlib.Report, name string, cluster bool, depth, maxFailedInval int, plain bool, deadline time.Time) {
 	classes := map[string]int{}
 	tag := ""
 	if cluster {
@@ -923,7 +921,7 @@ func searchHistories(cfg *vlib.Config, r *vlib.Report, name string, cluster bool
 		Cfg:      cfg,
 		MaxDepth: depth,
 		Deadline: deadline,
-		Alphabet: alphabet(cluster, maxFailedInval, cfg.Thorough()),
+		Alphabet: alphabet(cluster, maxFailedInval, plain),
 		Run: func(path []Op) vlib.RunResult {
 			res := runHistory(path, false, cluster)
 			if res.fail != nil && res.fail.class != "harness" {
